@@ -43,7 +43,9 @@ def exhaustive(ctx, max_n):
     for n in range(1, max_n + 1):
         plans = list(itertools.permutations(range(n)))
         if n == max_n:
-            plans = plans[:1] + [p for p in plans[1:] if (ctx.tier == 'thorough' or ctx.rng.random() < 0.25) and ctx.rng.random() < K.SCALE + 1e-9]
+            # the other permutations are relabelings of hosts (all pool assignments are enumerated): a sample of them
+            keep = 0.25 if ctx.tier == 'quick' else 5.0 / max(1, len(plans) - 1)
+            plans = plans[:1] + [p for p in plans[1:] if ctx.rng.random() < keep and ctx.rng.random() < K.SCALE + 1e-9]
         for plan in plans:
             for pools in itertools.product(range(7), repeat=n):
                 sc = base(n, plan, pools)
@@ -98,7 +100,8 @@ def run(ctx):
     items += rd
     ctx.count('source', 'random_history', len(rd))
     ctx.exhaustive = True
-    ctx.rule = ('exhaustive: every permutation plan over n<=%d hosts x every assignment of the 7 pool states (missing, shut down, '
+    ctx.rule = ('exhaustive up to relabeling of hosts: every permutation plan over fewer than %d hosts, and for that many hosts the identity '
+                'plan plus a sample of permutations (quick: 25%%, thorough: about 5), x every assignment of the 7 pool states (missing, shut down, '
                 'NoConnectionsAvailable, ConnectionBusy, borrow raises, send_msg raises, healthy), driven to exhaustion with '
                 'Overloaded/RETRY_NEXT_HOST; every explicit-target x pool state x decision; plus random legal histories (walk of the '
                 'implementation\'s enabled operations: responses of all kinds, executor runs in any order, speculative firings, pool '
